@@ -73,6 +73,27 @@ def run(scn):
   loop = SimLoop.INSTANCE
   res = scn['resolution']
   tq = TimerQueue(time_source=CLOCK.time, resolution=res)
+  # observe the order in which the worker takes entries off its heap (module seam)
+  import heapq as _heapq
+  import scales.timer_queue as tqm
+  tick = [0]
+  pops = {}      # queue's own sequence number of an entry -> tick at which it was popped
+
+  class RecordingHeapq(object):
+    def __getattr__(self, name):
+      return getattr(_heapq, name)
+
+    @staticmethod
+    def heappop(q):
+      item = _heapq.heappop(q)
+      if q is getattr(tq, '_queue', None):
+        tick[0] += 1
+        try:
+          pops.setdefault(item[1], tick[0])
+        except Exception:
+          pass
+      return item
+  tqm.heapq = RecordingHeapq()
   sched = {}     # id -> dict(T, at, seq, cancel fn, cancelled_at, runs=[times])
   runlog = []
   seq = [0]
@@ -100,6 +121,9 @@ def run(scn):
         sched[op['id']] = ent
         loop.note('timer.sched', '%d %.7f' % (op['id'], T - EPOCH))
         ent['cancel'] = tq.Schedule(T, action(op['id']))
+        tick[0] += 1
+        ent['in_heap_at'] = tick[0]
+        ent['tqseq'] = getattr(tq, '_seq', None)
       else:
         ent = sched.get(op['id'])
         if ent is None:
@@ -189,6 +213,28 @@ def run(scn):
         if want != got:
           REC.violation('C10', 'order', 'actions %d (R=%.6f,seq %d) and %d (R=%.6f,seq %d) ran out of order' % (
             a, ea['R'] - EPOCH, ea['seq'], b, eb['R'] - EPOCH, eb['seq']))
+  # order, second form (covers deadlines already in the past): when the worker
+  # takes the first of two entries off its heap and both were in it, it must be
+  # the one with the smaller (rounded deadline, scheduling order)
+  for a in ids:
+    ea = sched[a]
+    for b in ids:
+      if a >= b:
+        continue
+      eb = sched[b]
+      pa, pb = pops.get(ea.get('tqseq')), pops.get(eb.get('tqseq'))
+      if pa is None or pb is None or ea['amb'] or eb['amb']:
+        continue
+      if ea['cancelled_at'] is not None or eb['cancelled_at'] is not None:
+        continue
+      if max(ea['in_heap_at'], eb['in_heap_at']) < min(pa, pb):
+        REC.probe('order_checked_at_pop')
+        if ea['T'] < ea['at'] or eb['T'] < eb['at']:
+          REC.probe('order_checked_past_deadline')
+        want = (ea['k'], ea['seq']) < (eb['k'], eb['seq'])
+        if want != (pa < pb):
+          REC.violation('C10', 'order', 'actions %d (R=%.6f,seq %d) and %d (R=%.6f,seq %d) were both queued, the worker ran them out of order' % (
+            a, ea['R'] - EPOCH, ea['seq'], b, eb['R'] - EPOCH, eb['seq']), {'at_pop': True})
   REC.probe('scheduled', len(sched))
   REC.sample = {'resolution': res, 'ops': scn['ops'][:12],
                 'runs': [(i, round(sched[i]['runs'][0] - EPOCH, 6)) for i in ran[:12] if sched[i]['runs']]}
